@@ -31,7 +31,7 @@ Race3 ==   \* three creators over two names (a sample of the schedules is run)
   { Race(1, V1, p, <<New(a), New(b), New(c)>>, s, <<3, 1, 2>>) :
        p \in Pres, a \in {"x"}, b \in Names, c \in Names, s \in Scheds(3, 3) }
 
-Units == { [ver |-> v, ms |-> ms, mib |-> mib] : v \in {1, 2}, ms \in {30, 120}, mib \in {8, 48} }
+Units == { [ver |-> v, ms |-> ms, mib |-> mib] : v \in {1, 2}, ms \in {30, 120}, mib \in {8, 24} }
 
 Vals == {"0", "1", "999", "2147483648", "9007199254740993"}
 Others == << <<"user_usec", "5">>, <<"system_usec", "7">>, <<"core_sched.force_idle_usec", "0">>, <<"nr_throttled", "2">> >>
